@@ -143,7 +143,7 @@ structure S where
   implDead : Bool := false
 
 /-- the cap of the harness objective on the number of points logged within one call -/
-def evalCap : Nat := 400000
+def evalCap : Nat := 100000
 def fuelOf : Nat := evalCap + 10
 
 def S.obj (s : S) : List Float → Float := objEval s.fam s.n s.k
@@ -303,9 +303,13 @@ def section_ (t : List String) (a : String) (markers : List String) : List Strin
 
 def markers : List String := ["P", "F", "L", "#", "A", "B", "C"]
 
+def chunksGo {β : Type} (n : Nat) : Nat → List β → List (List β) → List (List β)
+  | 0, _, acc => acc.reverse
+  | fuel + 1, l, acc => chunksGo n fuel (l.drop n) (l.take n :: acc)
+
+/-- consecutive blocks of `n` elements (linear in the length of the list) -/
 def chunks {β : Type} (n : Nat) (l : List β) : List (List β) :=
-  if n = 0 then [] else
-  (List.range (l.length / n)).map (fun i => (l.drop (i * n)).take n)
+  if n = 0 then [] else chunksGo n (l.length / n) l []
 
 def implLog (s : S) (t : List String) : List (List Float) :=
   let lt := section_ t "L" markers
